@@ -5,8 +5,9 @@
 //
 //  1. stackmon_test.go – full-stack differential under the race detector: the
 //     same request list is run sequentially on one instance of the real
-//     middleware stack (reference) and from 32 goroutines on a fresh second
-//     instance, every written response being released to the Cloner exactly as
+//     middleware stack (reference) and from 32 goroutines on fresh further
+//     instances (3 rounds quick, 8 thorough, with scheduling noise injected by
+//     the fakes), every written response being released to the Cloner exactly as
 //     dnsserver.ServerBase does; per request the packed responses must be equal
 //     modulo the TTL decay of cached upstream answers.
 //  2. heap_test.go – shadow heap over seeded random Clone/Dispose/constructor
@@ -43,7 +44,7 @@ func TestCheck(t *testing.T) {
 	r.Assume("a message is released at most once and never used by its owner afterwards; generated messages share no memory with each other")
 
 	httpsDefect := runHeapMonitor(r)
-	runStackMonitor(r, httpsDefect)
+	runStackMonitor(t, r, httpsDefect)
 
 	// coverage gates (minima far below what the unchanged tree yields)
 	r.Require("stack_requests", 1000)
@@ -68,4 +69,5 @@ func TestCheck(t *testing.T) {
 	r.Require("heap_conc_rounds_parallel", 10)
 	r.Require("probe_https_attempts", 8)
 	r.Require("probe_opt_attempts", 1)
+	r.Require("probe_opt_fallback_attempts", 1)
 }
